@@ -274,6 +274,9 @@ class Prop(common.PropertyCheck):
             must = [n for n in names if 'hist_bins(log' in n or n == 'io.FCSData.range(all)' or 'selection_std(log)' in n]
             ro = sorted(set(ro + must))
         for kind in ('int', 'float'):
+            # the same query twice (the first answer overwritten by the caller in between)
+            for q in ro:
+                yield {'k': 'pair', 'q1': q, 'q2': q, 'data': kind, 'seed': 7}
             for q1, q2 in itertools.permutations(ro, 2):
                 yield {'k': 'pair', 'q1': q1, 'q2': q2, 'data': kind, 'seed': 7}
         # a by-name query on the parent, then a sub-sample taken with a slice / list / mask, then by-name queries on the sub-sample:
@@ -495,7 +498,18 @@ def queries(path):
             s2 = self.sample(case['data'], 0)
             a2 = build_args(s2, self.rng, case['data'] == 'float')
             alone = fpm.any_fp(f2(s2, a2))
-            f1(s, a)
+            r1 = f1(s, a)
+            # the first answer is the caller's own: its plain arrays (bin edges, masks, statistics) are overwritten before the second query
+            mine = [v for v in a.values() if isinstance(v, np.ndarray)] + [np.asarray(s)]
+
+            def scribble(x, depth=0):
+                if isinstance(x, np.ndarray) and not isinstance(x, FlowCal.io.FCSData):
+                    if x.size and x.flags.writeable and x.dtype.kind in 'fiub' and not any(np.shares_memory(x, m) for m in mine if m.size):
+                        x[...] = x.dtype.type(1) if x.dtype.kind == 'b' else x.dtype.type(3)
+                elif isinstance(x, (tuple, list)) and depth < 4:
+                    for e in x:
+                        scribble(e, depth + 1)
+            scribble(r1)
             after = fpm.any_fp(f2(s, a))
         except Exception as e:
             return {'err': type(e).__name__ + ':' + str(e)[:100]}
